@@ -17,6 +17,13 @@ def _site(nodes):
     return "+".join(parse(s)[0] for s in nodes)
 
 
+def _is_subseq_prefix(mine, want):
+    """mine is an order-preserving selection of want (batches of one key may be delivered while
+    earlier elements of the same key are still waiting for their timeout only if ... never: a key's
+    elements leave in arrival order)"""
+    return mine == want[:len(mine)]
+
+
 class Chain(PipeScenario):
     close_intervals = 10.0
 
@@ -52,11 +59,14 @@ class Chain(PipeScenario):
             return Violation("duplicate", site, "", info)
         if any(x not in arr for x in got):
             return Violation("invented", site, "", info)
+        keyed = any(s.endswith(":parity") for s in self.params["nodes"])
         for pr in self.producers:
-            mine = [x for x in got if x in pr.items]
-            want = [x for x in self.emitted(pr.name)]
-            if mine != want[:len(mine)]:
-                return Violation("order", site, "", info)
+            for cls in ((0, 1) if keyed else (None,)):
+                # a keyed partition keeps the producer's order within each key only
+                mine = [x for x in got if x in pr.items and (cls is None or x % 2 == cls)]
+                want = [x for x in self.emitted(pr.name) if cls is None or x % 2 == cls]
+                if (mine != want[:len(mine)]) if not keyed else (not _is_subseq_prefix(mine, want)):
+                    return Violation("order", site, "", info)
         if final:
             if sorted(got) != sorted(arr):
                 return Violation("loss", site, "", info)
@@ -162,9 +172,14 @@ class Twin(PipeScenario):
             info = dict(pipeline=sink, emitted=want, delivered=self.delivered(sink))
             if len(set(got)) != len(got):
                 return Violation("duplicate", site, "twin", info)
-            if got != want[:len(got)]:
+            keyed = any(s.endswith(":parity") for s in self.params["nodes"])
+            if keyed:
+                bad = any([x for x in got if x % 2 == c] != [x for x in want if x % 2 == c][:len([x for x in got if x % 2 == c])] for c in (0, 1))
+                if bad or any(x not in want for x in got):
+                    return Violation("order" if all(x in want for x in got) else "invented", site, "twin", info)
+            elif got != want[:len(got)]:
                 return Violation("order" if all(x in want for x in got) else "invented", site, "twin", info)
-            if final and got != want:
+            if final and (sorted(got) != sorted(want) if keyed else got != want):
                 return Violation("loss", site, "twin", info)
         if final:
             pend = [pr.name for pr in self.producers if pr.inflight()]
@@ -185,7 +200,7 @@ def factory(key):
 
 
 SINGLE = ["buffer:1", "buffer:2", "delay:1", "rate_limit:1", "map_async:1", "map_async:2",
-          "timed_window:1", "partition:2:1"]
+          "timed_window:1", "partition:2:1", "partition:2:1:parity"]
 KINDS = ["future", "native", "gen"]
 
 
